@@ -230,7 +230,11 @@ def _worker_run(args: t.Tuple[t.Any, str, int]) -> t.Tuple[t.Optional[Acc], t.Op
     _budget.S.poisoned = False
     apply_ambient(shard_ambient(shard))
     try:
-        _worker_mod.run_shard(shard, tier, seed, acc)  # type: ignore[union-attr]
+        _budget.shard_watch(True)
+        try:
+            _worker_mod.run_shard(shard, tier, seed, acc)  # type: ignore[union-attr]
+        finally:
+            _budget.shard_watch(False)
         return acc, None
     except _budget.ShardAbort as e:
         acc.cap(f"shard {shard!r} stopped: {e}")
